@@ -43,11 +43,13 @@ fn node_bin() -> String {
     }
 }
 
-/// One long-running evaluator process (line protocol, strictly request/response).
+/// One long-running evaluator process (line protocol; responses come back in request order).
+/// A reader thread drains the child's stdout so that a whole batch of requests can be written
+/// before the answers are collected.
 pub struct Node {
     child: Child,
     inp: Option<ChildStdin>,
-    out: BufReader<ChildStdout>,
+    rx: std::sync::mpsc::Receiver<String>,
     next_id: u64,
     pub evals: u64,
 }
@@ -68,35 +70,59 @@ impl Node {
             Err(e) => machinery(&format!("cannot start node ({}): {e}", node_bin())),
         };
         let inp = child.stdin.take();
-        let out = BufReader::new(child.stdout.take().unwrap());
-        Node { child, inp, out, next_id: 0, evals: 0 }
+        let out: ChildStdout = child.stdout.take().unwrap();
+        let (tx, rx) = std::sync::mpsc::channel();
+        std::thread::spawn(move || {
+            let mut r = BufReader::new(out);
+            loop {
+                let mut line = String::new();
+                match r.read_line(&mut line) {
+                    Ok(n) if n > 0 => {
+                        if tx.send(line).is_err() {
+                            break;
+                        }
+                    }
+                    _ => break,
+                }
+            }
+        });
+        Node { child, inp, rx, next_id: 0, evals: 0 }
     }
     pub fn eval(&mut self, js: &str, actor: bool) -> Value {
-        self.next_id += 1;
-        self.evals += 1;
-        let id = self.next_id;
-        let mut line = json!({"id": id, "js": js, "actor": actor}).to_string();
-        line.push('\n');
+        self.eval_batch(&[(js, actor)]).pop().unwrap()
+    }
+    pub fn eval_batch(&mut self, reqs: &[(&str, bool)]) -> Vec<Value> {
+        let first = self.next_id + 1;
+        let mut buf = String::new();
+        for (js, actor) in reqs {
+            self.next_id += 1;
+            self.evals += 1;
+            buf.push_str(&json!({"id": self.next_id, "js": js, "actor": actor}).to_string());
+            buf.push('\n');
+        }
         let w = self.inp.as_mut().unwrap();
-        if w.write_all(line.as_bytes()).and_then(|_| w.flush()).is_err() {
+        if w.write_all(buf.as_bytes()).and_then(|_| w.flush()).is_err() {
             machinery("node evaluator died (write failed)");
         }
-        let mut resp = String::new();
-        match self.out.read_line(&mut resp) {
-            Ok(n) if n > 0 => {}
-            _ => machinery("node evaluator died (no response)"),
+        let mut out = Vec::with_capacity(reqs.len());
+        for k in 0..reqs.len() as u64 {
+            let resp = match self.rx.recv() {
+                Ok(l) => l,
+                Err(_) => machinery("node evaluator died (no response)"),
+            };
+            let v: Value = match serde_json::from_str(&resp) {
+                Ok(v) => v,
+                Err(e) => machinery(&format!("node evaluator sent unparsable line: {e}: {resp}")),
+            };
+            if v["id"].as_u64() != Some(first + k) {
+                machinery(&format!("node evaluator out of sync: expected id {}, got {}", first + k, v["id"]));
+            }
+            if v["stage"] == "mock" {
+                machinery(&format!("mock_idl.js internal error: {}", v["message"]));
+            }
+            out.push(v);
         }
-        let v: Value = match serde_json::from_str(&resp) {
-            Ok(v) => v,
-            Err(e) => machinery(&format!("node evaluator sent unparsable line: {e}: {resp}")),
-        };
-        if v["id"].as_u64() != Some(id) {
-            machinery(&format!("node evaluator out of sync: expected id {id}, got {}", v["id"]));
-        }
-        if v["stage"] == "mock" {
-            machinery(&format!("mock_idl.js internal error: {}", v["message"]));
-        }
-        v
+        out
     }
 }
 impl Drop for Node {
@@ -215,9 +241,37 @@ fn judge(eenv: &Env, eservice: &Ty, einit: &[Ty], js: &jsview::JsView) -> Option
     None
 }
 
+/// What the front half of the pipeline hands to the back half.
+pub struct Front {
+    pub obs: Obs,
+    /// present when the program reached the evaluator: (js, has actor, front end's env, actor)
+    pub pending: Option<(String, bool, Env, Option<Ty>)>,
+}
+
 /// The whole pipeline for one program text. `model`: the generator's denotation (absent in
 /// replay, where the front end's own view is the expectation).
 pub fn pipeline(did: &str, model: Option<&(Env, Option<Ty>)>, node: &mut Node) -> Obs {
+    let f = front(did, model);
+    match &f.pending {
+        None => f.obs,
+        Some((js, actor, _, _)) => {
+            let resp = node.eval(js, *actor);
+            back(f, model, resp)
+        }
+    }
+}
+
+/// Front half: real front end, bridge view, model-vs-real consistency, compile twice.
+pub fn front(did: &str, model: Option<&(Env, Option<Ty>)>) -> Front {
+    let o = front_(did, model);
+    match o {
+        Ok((obs, js, has_actor, renv, ractor)) => Front { obs, pending: Some((js, has_actor, renv, ractor)) },
+        Err(obs) => Front { obs, pending: None },
+    }
+}
+
+#[allow(clippy::type_complexity)]
+fn front_(did: &str, model: Option<&(Env, Option<Ty>)>) -> Result<(Obs, String, bool, Env, Option<Ty>), Obs> {
     let mut o = Obs::default();
     // --- real front end
     let parsed = catch(|| did.parse::<candid_parser::IDLProg>());
@@ -225,11 +279,11 @@ pub fn pipeline(did: &str, model: Option<&(Env, Option<Ty>)>, node: &mut Node) -
         Ok(Ok(a)) => a,
         Ok(Err(e)) => {
             o.rejected = Some(format!("parse: {e}"));
-            return o;
+            return Err(o);
         }
         Err(p) => {
             o.rejected = Some(format!("parse panicked: {p}"));
-            return o;
+            return Err(o);
         }
     };
     let mut te = TypeEnv::new();
@@ -238,11 +292,11 @@ pub fn pipeline(did: &str, model: Option<&(Env, Option<Ty>)>, node: &mut Node) -
         Ok(Ok(a)) => a,
         Ok(Err(e)) => {
             o.rejected = Some(format!("check: {e}"));
-            return o;
+            return Err(o);
         }
         Err(p) => {
             o.rejected = Some(format!("check panicked: {p}"));
-            return o;
+            return Err(o);
         }
     };
     o.with_actor = actor.is_some();
@@ -251,7 +305,7 @@ pub fn pipeline(did: &str, model: Option<&(Env, Option<Ty>)>, node: &mut Node) -
         Ok(e) => e,
         Err(e) => {
             o.harness = Some(format!("bridge::from_real_env: {e}"));
-            return o;
+            return Err(o);
         }
     };
     let mut knots = Env::new();
@@ -259,7 +313,7 @@ pub fn pipeline(did: &str, model: Option<&(Env, Option<Ty>)>, node: &mut Node) -
         Ok(a) => a,
         Err(e) => {
             o.harness = Some(format!("bridge::from_real_ty(actor): {e}"));
-            return o;
+            return Err(o);
         }
     };
     o.is_class = matches!(ractor, Some(Ty::Class(..)));
@@ -270,12 +324,12 @@ pub fn pipeline(did: &str, model: Option<&(Env, Option<Ty>)>, node: &mut Node) -
             match renv.0.get(k) {
                 None => {
                     o.harness = Some(format!("definition {k} missing in the checked environment"));
-                    return o;
+                    return Err(o);
                 }
                 Some(rt) => {
                     if !sub::equal(&merged, &t.rename(&|s| format!("m.{s}")), &rt.rename(&|s| format!("r.{s}"))) {
                         o.harness = Some(format!("definition {k}: generator model and front end disagree"));
-                        return o;
+                        return Err(o);
                     }
                 }
             }
@@ -285,16 +339,16 @@ pub fn pipeline(did: &str, model: Option<&(Env, Option<Ty>)>, node: &mut Node) -
             (Some(m), Some(r)) => {
                 if !sub::equal(&merged, &m.rename(&|s| format!("m.{s}")), &r.rename(&|s| format!("r.{s}"))) {
                     o.harness = Some("actor: generator model and front end disagree".into());
-                    return o;
+                    return Err(o);
                 }
                 if matches!(m, Ty::Class(..)) != matches!(r, Ty::Class(..)) {
                     o.harness = Some("actor: class-ness differs between model and front end".into());
-                    return o;
+                    return Err(o);
                 }
             }
             _ => {
                 o.harness = Some("actor presence differs between model and front end".into());
-                return o;
+                return Err(o);
             }
         }
     }
@@ -307,19 +361,24 @@ pub fn pipeline(did: &str, model: Option<&(Env, Option<Ty>)>, node: &mut Node) -
             if a != b {
                 o.js = Some(a);
                 o.fail = Some(Fail { class: "nondeterministic".into(), kind: "two-compiles-differ".into(), detail: "two compile calls on the same input returned different text".into() });
-                return o;
+                return Err(o);
             }
             a
         }
         (Err(p), _) | (_, Err(p)) => {
             let loc = p.rsplit(" @ ").next().unwrap_or("").to_string();
             o.fail = Some(Fail { class: "panic".into(), kind: loc, detail: format!("javascript::compile panicked: {p}") });
-            return o;
+            return Err(o);
         }
     };
     o.js = Some(js.clone());
-    // --- evaluate
-    let resp = node.eval(&js, actor.is_some());
+    Ok((o, js, actor.is_some(), renv, ractor))
+}
+
+/// Back half: interpret the evaluator's answer.
+pub fn back(f: Front, model: Option<&(Env, Option<Ty>)>, resp: Value) -> Obs {
+    let mut o = f.obs;
+    let (_js, has_actor, renv, ractor) = f.pending.unwrap();
     o.node_evals = 1;
     o.resp = Some(resp.clone());
     if resp["ok"] != true {
@@ -329,7 +388,7 @@ pub fn pipeline(did: &str, model: Option<&(Env, Option<Ty>)>, node: &mut Node) -
         o.fail = Some(Fail { class: name.clone(), kind: mask(&msg), detail: format!("{name} at stage {stage}: {msg}") });
         return o;
     }
-    if actor.is_none() {
+    if !has_actor {
         if let Some(n) = resp["run"]["name"].as_str() {
             o.info.push(format!("noactor-run:{n}"));
         }
@@ -489,7 +548,14 @@ fn main() {
     let fams = families::all(tier, &alpha);
     let mut fam_stats = vec![];
     let mut total_programs = 0u64;
+    let only = std::env::var("C17_ONLY").ok();
     for (fname, gen) in fams {
+        if let Some(o) = &only {
+            if o != fname {
+                continue;
+            }
+        }
+        let t0 = std::time::Instant::now();
         if ctx.timed_out() {
             rep.level(fname, 0, false);
             rep.notes.push(format!("family {fname}: not started (wall cap)"));
@@ -498,71 +564,89 @@ fn main() {
         let cases: Vec<Case> = gen();
         let n = cases.len() as u64;
         total_programs += n;
+        const BATCH: u64 = 64;
+        let record = |case: &Case, did: String, o: Obs, rep: &mut Report| {
+            rep.evaluations += 1;
+            rep.count("programs", 1);
+            rep.count("compile_calls", o.compiles);
+            rep.count("node_evaluations", o.node_evals);
+            rep.transitions += o.compiles + o.node_evals;
+            let fam = case.family;
+            if let Some(h) = o.harness {
+                rep.outcome(&format!("{fam}:HARNESS"));
+                let mut hs = harness.lock().unwrap();
+                if hs.len() < 20 {
+                    hs.push(format!("[{fam}] {h}\n{did}"));
+                }
+                return;
+            }
+            if let Some(r) = o.rejected {
+                rep.count("frontend_rejected", 1);
+                rep.outcome(&format!("{fam}:frontend-rejected"));
+                let mut rj = rejected.lock().unwrap();
+                let e = rj.entry(fam.to_string()).or_insert((0, format!("{r} :: {did}")));
+                e.0 += 1;
+                return;
+            }
+            if o.with_actor {
+                rep.count("programs_with_actor", 1);
+                if o.is_class {
+                    rep.count("programs_with_class_actor", 1);
+                }
+            }
+            for i in &o.info {
+                rep.count(&format!("info:{i}"), 1);
+            }
+            rep.traces_validated += 1;
+            match o.fail {
+                None => {
+                    if o.with_actor && !case.prog.defs.is_empty() {
+                        rep.nontrivial += 1;
+                    }
+                    let cls = if !o.with_actor {
+                        "ok-noactor-valid-js"
+                    } else if o.is_class {
+                        "ok-class-equal"
+                    } else {
+                        "ok-service-equal"
+                    };
+                    rep.outcome(&format!("{fam}:{cls}"));
+                }
+                Some(f) => {
+                    rep.outcome(&format!("{fam}:{}", f.class));
+                    rep.count("failing_programs", 1);
+                    failures.lock().unwrap().push(Failure { case: case.clone(), did, fail: f, js: o.js, resp: o.resp });
+                }
+            }
+        };
+        type Pending = Vec<(usize, String, (Env, Option<Ty>), Front)>;
         let r = ctx.par_range(
             fname,
             n,
-            128,
-            Node::spawn,
-            |node, i, rep| {
+            BATCH,
+            || (Node::spawn(), Pending::new()),
+            |st, i, rep| {
+                let (node, pending) = st;
                 let case = &cases[i as usize];
                 let did = case.did();
                 let model = case.prog.to_model();
-                let o = pipeline(&did, Some(&model), node);
-                rep.evaluations += 1;
-                rep.count("programs", 1);
-                rep.count("compile_calls", o.compiles);
-                rep.count("node_evaluations", o.node_evals);
-                rep.transitions += o.compiles + o.node_evals;
-                let fam = case.family;
-                if let Some(h) = o.harness {
-                    rep.outcome(&format!("{fam}:HARNESS"));
-                    let mut hs = harness.lock().unwrap();
-                    if hs.len() < 20 {
-                        hs.push(format!("[{fam}] {h}\n{did}"));
-                    }
+                let f = front(&did, Some(&model));
+                pending.push((i as usize, did, model, f));
+                // par_range hands out whole chunks of BATCH consecutive indices to one worker
+                if (i + 1) % BATCH != 0 && i + 1 != n {
                     return;
                 }
-                if let Some(r) = o.rejected {
-                    rep.count("frontend_rejected", 1);
-                    rep.outcome(&format!("{fam}:frontend-rejected"));
-                    let mut rj = rejected.lock().unwrap();
-                    let e = rj.entry(fam.to_string()).or_insert((0, format!("{r} :: {did}")));
-                    e.0 += 1;
-                    return;
-                }
-                if o.with_actor {
-                    rep.count("programs_with_actor", 1);
-                    if o.is_class {
-                        rep.count("programs_with_class_actor", 1);
-                    }
-                }
-                for i in &o.info {
-                    rep.count(&format!("info:{i}"), 1);
-                }
-                match o.fail {
-                    None => {
-                        rep.traces_validated += 1;
-                        if o.with_actor && !case.prog.defs.is_empty() {
-                            rep.nontrivial += 1;
-                        }
-                        let cls = if !o.with_actor {
-                            "ok-noactor-valid-js"
-                        } else if o.is_class {
-                            "ok-class-equal"
-                        } else {
-                            "ok-service-equal"
-                        };
-                        rep.outcome(&format!("{fam}:{cls}"));
-                    }
-                    Some(f) => {
-                        rep.traces_validated += 1;
-                        rep.outcome(&format!("{fam}:{}", f.class));
-                        rep.count("failing_programs", 1);
-                        failures.lock().unwrap().push(Failure { case: case.clone(), did, fail: f, js: o.js, resp: o.resp });
-                    }
+                let reqs: Vec<(&str, bool)> = pending.iter().filter_map(|p| p.3.pending.as_ref().map(|(js, a, _, _)| (js.as_str(), *a))).collect();
+                let mut resps = node.eval_batch(&reqs).into_iter();
+                for (idx, did, model, f) in pending.drain(..) {
+                    let o = if f.pending.is_some() { back(f, Some(&model), resps.next().unwrap()) } else { f.obs };
+                    record(&cases[idx], did, o, rep);
                 }
             },
         );
+        if std::env::var("C17_TIMING").is_ok() {
+            eprintln!("family {fname}: {n} programs in {:.2}s", t0.elapsed().as_secs_f64());
+        }
         fam_stats.push(json!({"family": fname, "programs": n}));
         rep.merge(r);
     }
